@@ -26,6 +26,7 @@ pub mod c17_lab;
 pub mod c18;
 pub mod c18_lab;
 pub mod c19;
+pub mod c19_lab;
 pub mod c20;
 pub mod h2flow;
 
